@@ -211,7 +211,7 @@ impl<'a> Gen<'a> {
         }
     }
 
-    fn emit(&mut self, acts: Vec<Action>) -> bool {
+    pub(crate) fn emit(&mut self, acts: Vec<Action>) -> bool {
         // apply to a trial copy of the model; drop the step if the model calls it ambiguous
         let mut trial = self.m.clone();
         for a in &acts {
